@@ -233,6 +233,8 @@ pub fn generate(seed: u64) -> C19Scn {
         let crash = match rng.below(24) {
             0 | 1 => Some(CrashAt::BeforeOpenWrite),
             2 | 3 => Some(CrashAt::AtExit),
+            // anywhere in the commit protocol: right after the n-th mutation of the file system
+            4 | 5 => Some(CrashAt::AfterFsOps(rng.below(5) as u32)),
             _ => None,
         };
         io.crash = crash.clone();
@@ -515,6 +517,8 @@ pub fn run(scn: &C19Scn, stats: &mut RunStats) -> Option<Violation> {
                 first_t.get_or_insert(t.now.0);
                 last_t = last_t.max(t.now);
                 let before = String::from_utf8_lossy(&fs[&cur]).into_owned();
+                let dest_before: Option<Vec<u8>> = fs.get(&nxt).cloned();
+                let mut crashed_mid_protocol = false;
                 let ex = tick_exec(scn, t, &cur, &nxt);
                 let out = execute(&mut fs, &ex, crate::cli::run);
                 let after_bytes = fs.get(&nxt).cloned().unwrap_or_default();
@@ -555,6 +559,11 @@ pub fn run(scn: &C19Scn, stats: &mut RunStats) -> Option<Violation> {
                 let after = match String::from_utf8(after_bytes.clone()) {
                     Ok(s) => s,
                     Err(_) => {
+                        if matches!(out.status, Status::Crash(_)) {
+                            // a crash in the middle of a write may cut a character in two
+                            stats.bump("crash_mid_commit_probe");
+                            return None;
+                        }
                         return fail("C19.file_is_utf8", "not-utf8".into(), "the file is no longer valid UTF-8".into(), k);
                     }
                 };
@@ -571,6 +580,20 @@ pub fn run(scn: &C19Scn, stats: &mut RunStats) -> Option<Violation> {
                     Status::Crash("at_exit") => {
                         stats.bump("crash_after_commit_fired");
                         perturbed = true;
+                    }
+                    Status::Crash("after_fs_op") => {
+                        // died somewhere inside its commit protocol.  Destination untouched: nothing
+                        // was committed, the supervisor retries.  Destination changed: either the new
+                        // state is complete (then everything below applies) or it is torn (for the
+                        // shipped truncate-then-write protocol that is the known "source lost"
+                        // behaviour: counted, history ends).
+                        stats.bump("crash_inside_commit_protocol_fired");
+                        perturbed = true;
+                        if fs.get(&nxt).cloned() == dest_before {
+                            last_committed_removed = false;
+                            continue;
+                        }
+                        crashed_mid_protocol = true;
                     }
                     Status::Crash(_) => {
                         // crash between truncate and the last write: the source is lost (non-gating probe)
@@ -662,6 +685,10 @@ pub fn run(scn: &C19Scn, stats: &mut RunStats) -> Option<Violation> {
                     }
                 }
                 let matched = refs.iter().any(|r| strip_ws(r) == strip_ws(&after));
+                if !matched && crashed_mid_protocol {
+                    stats.bump("crash_mid_commit_probe");
+                    return None; // torn destination: no listed property says what must be there
+                }
                 if !matched {
                     let last_ref = refs.last().cloned().unwrap_or_default();
                     let got: BTreeSet<u32> = scn.doc.surviving_ids(&after).into_iter().collect();
@@ -687,7 +714,9 @@ pub fn run(scn: &C19Scn, stats: &mut RunStats) -> Option<Violation> {
                     );
                 }
                 // --- I1: an immediate duplicate with the same configuration is a no-op ---
-                if refs.len() == 1 {
+                // (after a crash inside the commit protocol the destination may be complete only up to
+                // white space: the byte-exact duplicate check does not apply to that run)
+                if refs.len() == 1 && !crashed_mid_protocol {
                     let mut fs2 = fs.clone();
                     let mut t2 = t.clone();
                     t2.io = IoPlan::default();
